@@ -465,6 +465,8 @@ Definition ex_r1 : read := mkRead false 0 9 true (mk_pairs 0 [84;84;71;65;67;67;
 Definition ex_r2 : read := mkRead true 2 11 true (mk_pairs 2 [71;65;67;67;71;71;65;67;71] [71;65;67;67;71;71;110;67;71] 30).
 Definition ex_cfg (cached : bool) : cfg := mkCfg cached (Some false) true false 0 0 None.
 Definition ex_frags : list frag := [(Some ex_r1, Some ex_r2)].
+Definition ex_cfg_u : cfg := mkCfg false (Some false) true true 0 0 None.     (* allow_unsafe_base_calls *)
+Definition ex_r1t : read := mkRead false 0 9 true (mk_pairs 0 [84;84;71;65;67;84;71;71;65] [84;99;71;65;67;99;71;71;110] 30).
 Definition ex_ref2 : list Z := [84;84;71;65;67;65;71;71;78;67;65].   (* TTGACAGGNCA *)
 
 (* the model's history entry point (mode 4) is the per-molecule entry point (mode 0) applied to each molecule *)
@@ -476,4 +478,56 @@ Proof.
   cbn [map forallb] in H. apply andb_true_iff in H as [Hx Hl].
   cbn [map combine fst snd]. rewrite (IH Hl). f_equal.
   unfold run_C14. cbn [m_frags dec_mol] in Hx. rewrite Hx. reflexivity.
+Qed.
+
+(* ------------------------------------------------------------------ histories on ONE molecule object *)
+Definition added (ops : list mop) : list frag := flat_map grown ops.
+Fixpoint nfin (ops : list mop) : nat :=
+  match ops with [] => 0 | MFin _ :: t => S (nfin t) | _ :: t => nfin t end.
+
+Lemma mol_history_frags ref : forall ops st, ms_frags (fst (mol_history ref st ops)) = ms_frags st ++ added ops.
+Proof.
+  induction ops as [|o ops IH]; intros st; cbn [mol_history added flat_map]; [now rewrite app_nil_r|].
+  destruct (mstep ref st o) as [st' out] eqn:E.
+  specialize (IH st'). destruct (mol_history ref st' ops) as [st'' outs]. cbn [fst] in *. rewrite IH.
+  fold (added ops). destruct o; cbn [mstep grown] in E; injection E as <- <-; cbn [ms_frags grown];
+    now rewrite ?app_assoc, ?app_nil_r.
+Qed.
+
+Lemma mol_history_outputs_len ref : forall ops st, length (snd (mol_history ref st ops)) = nfin ops.
+Proof.
+  induction ops as [|o ops IH]; intros st; cbn [mol_history nfin]; [reflexivity|].
+  destruct (mstep ref st o) as [st' out] eqn:E. specialize (IH st').
+  destruct (mol_history ref st' ops) as [st'' outs]. cbn [snd] in *. rewrite app_length, IH.
+  destruct o; cbn [mstep] in E; injection E as <- <-; reflexivity.
+Qed.
+
+(* every finalise answers with the calls computed from ALL fragments held at that moment, however they arrived
+   (add_fragment / add_molecule / _add_fragment) and whatever was finalised before *)
+Lemma mol_history_fin ref : forall pre st c post,
+  nth_error (snd (mol_history ref st (pre ++ MFin c :: post))) (nfin pre) =
+  Some (ms_frags st ++ added pre, calls c ref (ms_frags st ++ added pre)).
+Proof.
+  induction pre as [|o pre IH]; intros st c post.
+  - cbn [app mol_history mstep nfin added flat_map]. rewrite app_nil_r.
+    destruct (mol_history ref _ post) as [st'' outs]. reflexivity.
+  - cbn [app mol_history]. destruct (mstep ref st o) as [st' out] eqn:E.
+    specialize (IH st' c post). destruct (mol_history ref st' (pre ++ MFin c :: post)) as [st'' outs].
+    cbn [snd] in *. cbn [added flat_map]. fold (added pre).
+    destruct o; cbn [mstep grown] in E; injection E as <- <-; cbn [ms_frags grown nfin app] in *;
+      rewrite ?app_assoc, ?app_nil_r in *; exact IH.
+Qed.
+
+(* ... and methylation_call_dict holds exactly that answer after a finalise that did not raise *)
+Lemma mol_history_dict ref pre st c cs :
+  calls c ref (ms_frags st ++ added pre) = OK cs ->
+  ms_dict (fst (mol_history ref st (pre ++ [MFin c]))) = Some cs.
+Proof.
+  revert st. induction pre as [|o pre IH]; intros st H.
+  - cbn [app mol_history mstep added flat_map] in *. rewrite app_nil_r in H. rewrite H. reflexivity.
+  - cbn [app mol_history]. destruct (mstep ref st o) as [st' out] eqn:E.
+    specialize (IH st'). destruct (mol_history ref st' (pre ++ [MFin c])) as [st'' outs]. cbn [fst] in *.
+    apply IH. cbn [added flat_map] in H. fold (added pre) in H.
+    destruct o; cbn [mstep grown] in E; injection E as <- <-; cbn [ms_frags grown] in *;
+      rewrite ?app_assoc, ?app_nil_r in *; exact H.
 Qed.
